@@ -5,7 +5,8 @@ cd /repo || exit 2
 if ! git diff --quiet; then echo "repo dirty"; exit 2; fi
 git apply "$patch" || { echo "patch does not apply"; exit 2; }
 cd /verif
-mkdir -p /tmp/mutreplays
+# keep the evidence written on the unchanged tree (also when it is not committed yet)
+evsave=$(mktemp -d /dev/shm/evsave.XXXXXX); cp -a /verif/evidence/. "$evsave"/ 2>/dev/null
 VERIF_BUDGET_S=$b VERIF_WATCHDOG_S=${VERIF_WATCHDOG_S:-30} ./verif check $id --tier $tier 2>&1 | grep -v "^KNOWN" | cut -c1-600 | head -${LINES_OUT:-14}
 rc=${PIPESTATUS[0]}
 echo "rc=$rc"
@@ -13,6 +14,6 @@ git -C /repo checkout -- .
 # never leave a binary built from the changed tree behind
 (cd /verif && ./verif build >/dev/null 2>&1)
 # restore the evidence / replays produced on the unchanged tree
-git -C /verif checkout -- evidence 2>/dev/null
+cp -a "$evsave"/. /verif/evidence/ 2>/dev/null; rm -rf "$evsave"
 rm -f /verif/replays/$id-*.json
 exit 0
